@@ -25,6 +25,15 @@ def run(chk, ctx) -> None:
     _lone(chk, ctx)
     _dead(chk, ctx)
     _records(chk, ctx)
+    # "in the right amounts": the pot arithmetic is the one C01 decides (layers, merge, rake plumbing; quotient to every
+    # winner / board / hand type and the odd chips to the first of them; what leaves a pot is what is pushed)
+    from .c01 import _divmod, _mirror_transfer, _pots, chip_writers
+    from .helpers import Refile
+    re = Refile(chk, {'C01.pots': 'C02.amounts', 'C01.divmod': 'C02.amounts', 'C01.push': 'C02.amounts'})
+    _pots(re, ctx)
+    _divmod(re, ctx)
+    _mirror_transfer(re, ctx, chip_writers(ctx))
+    chk.floor('C02.amounts', 18)
 
 
 def _eligible(chk, ctx) -> None:
